@@ -54,6 +54,41 @@ def dotted(n):
     return None
 
 
+_RF_CACHE = {}
+
+
+def returns_fresh(world, f, depth=0):
+    """Every `return` of f yields a container allocated by that call (list/dict literal,
+    comprehension, list()/dict()/... of something, concatenation of such, or a call of another
+    function with the same property)."""
+    k = f._key
+    if k in _RF_CACHE:
+        return _RF_CACHE[k]
+    _RF_CACHE[k] = False
+    if depth > 4:
+        return False
+    rets = [n for n in ast.walk(f.node) if isinstance(n, ast.Return)]
+    nested = [n for n in ast.walk(f.node) if isinstance(n, (ast.FunctionDef, ast.Lambda)) and n is not f.node]
+    if nested or not rets or any(r.value is None for r in rets):
+        return False
+
+    def fresh(e, d=0):
+        if isinstance(e, (ast.List, ast.Dict, ast.Set, ast.ListComp, ast.DictComp, ast.SetComp)):
+            return True
+        if isinstance(e, ast.BinOp) and isinstance(e.op, ast.Add):
+            return fresh(e.left, d) or fresh(e.right, d)
+        if isinstance(e, ast.Call) and isinstance(e.func, ast.Name):
+            if e.func.id in FRESH_BUILTIN_CALLS and world.static_lookup(f.mod, e.func.id) is None:
+                return True
+            v = world.static_lookup(f.mod, e.func.id)
+            if isinstance(v, FuncV) and v._key != k:
+                return returns_fresh(world, v, depth + 1)
+        return False
+    r = all(fresh(x.value) for x in rets)
+    _RF_CACHE[k] = r
+    return r
+
+
 class FuncInfo(object):
     def __init__(self, world, mod, qual, node, session_classes):
         self.world, self.mod, self.qual, self.node = world, mod, qual, node
@@ -129,6 +164,8 @@ class FuncInfo(object):
                 v = self.world.static_lookup(self.mod, f.id)
                 if isinstance(v, ClassV):
                     return True
+                if isinstance(v, FuncV) and returns_fresh(self.world, v):
+                    return True        # a package function whose every return value is freshly allocated
                 if v is None and f.id in FRESH_BUILTIN_CALLS:
                     return True
                 if isinstance(v, ExtV) and v.name.startswith(FRESH_EXT_PREFIX):
@@ -142,7 +179,7 @@ class FuncInfo(object):
                     return name.startswith(FRESH_EXT_PREFIX)
                 if isinstance(v, ModV) and len(d) == 2:
                     c = self.world.static_lookup(self.world.mods[v.name], d[1])
-                    return isinstance(c, ClassV)
+                    return isinstance(c, ClassV) or (isinstance(c, FuncV) and returns_fresh(self.world, c))
             # method call on a fresh hash object etc: x.copy()
             if isinstance(f, ast.Attribute) and f.attr in ("copy",):
                 return True
@@ -507,6 +544,7 @@ def session_class_set(world, ev):
 
 
 def run_analyzer(world, session_classes):
+    _RF_CACHE.clear()
     an = Analyzer(world, session_classes)
     for (mod, qual, node) in world.functions():
         an.analyse_function(FuncInfo(world, mod, qual, node, session_classes))
